@@ -81,6 +81,24 @@ impl<'a> C<'a> {
     }
 }
 
+/// A per-thread scratch area handed to the DHCP socket as its `'static` receive-packet buffer.  Runs on one
+/// thread are sequential and the socket of the previous run is dropped before the next run starts, so the
+/// memory is never referenced twice at the same time.
+fn thread_static_buffer(len: usize) -> &'static mut [u8] {
+    thread_local! {
+        static BUF: std::cell::Cell<*mut u8> = const { std::cell::Cell::new(std::ptr::null_mut()) };
+    }
+    const CAP: usize = 2048;
+    let p = BUF.with(|b| {
+        if b.get().is_null() {
+            let leaked: &'static mut [u8] = Box::leak(vec![0u8; CAP].into_boxed_slice());
+            b.set(leaked.as_mut_ptr());
+        }
+        b.get()
+    });
+    unsafe { std::slice::from_raw_parts_mut(p, len.min(CAP)) }
+}
+
 pub fn run(tape: &mut Tape, props: Props, thorough: bool, trace_on: bool) -> Outcome {
     let mut cfg = NodeCfg::basic('V', Medium::Ethernet, 1514, 1, false);
     cfg.addrs = vec![];
@@ -120,10 +138,27 @@ pub fn run(tape: &mut Tape, props: Props, thorough: bool, trace_on: bool) -> Out
         }
     }
     s.set_retry_config(retry);
+    // rarely used options: a user buffer that receives a copy of every accepted server message (smaller than
+    // some of the messages the scripted server sends), an explicit parameter request list, extra outgoing options
+    let rxbuf_len = match tape.draw(4) {
+        0 => Some(*tape.pick(&[300usize, 576, 1200, 64])),
+        _ => None,
+    };
+    if let Some(n) = rxbuf_len {
+        s.set_receive_packet_buffer(thread_static_buffer(n));
+    }
+    if tape.draw(4) == 0 {
+        static PRL: [u8; 4] = [1, 3, 6, 42];
+        s.set_parameter_request_list(&PRL);
+    }
+    if tape.draw(4) == 0 {
+        static OPTS: [smoltcp::wire::DhcpOption<'static>; 2] = [smoltcp::wire::DhcpOption { kind: 12, data: b"simhost" }, smoltcp::wire::DhcpOption { kind: 60, data: b"verif" }];
+        s.set_outgoing_options(&OPTS);
+    }
     let ignore_naks = tape.draw(4) == 0;
     s.set_ignore_naks(ignore_naks);
     let h = node.sockets.add(s);
-    let desc = format!("dhcp max_lease={:?} retry={:?} ignore_naks={} start={}us", max_lease, retry, ignore_naks, cfg.start_us);
+    let desc = format!("dhcp max_lease={:?} retry={:?} ignore_naks={} start={}us rx-packet-buffer={:?}", max_lease, retry, ignore_naks, cfg.start_us, rxbuf_len);
     let now = cfg.start_us;
     let mut c = C {
         tape,
